@@ -380,15 +380,20 @@ func stepRun(m *world.Machine, maxSteps int) (err error, steps int, haltExec boo
 		si := m.StepNoBoundary()
 		steps++
 		if bare {
-			// no memory history on the bare library type: HALT executed = not an acceptance, PC is left on a
-			// byte that was 76h BEFORE the Step (a block instruction may write one there), with nothing but
-			// ignored index prefixes in front of it, and the refresh counter says that all of those bytes were
-			// fetched in this Step (a prefix consumed on its own leaves PC on the 76h as well, one fetch short)
+			// no memory history on the bare library type: HALT executed = not an acceptance, the byte at PC was
+			// 76h BEFORE the Step (a block instruction may write one there) and PC did not move. If PC moved
+			// over nothing but index prefixes onto a 76h, the Step either executed that HALT (prefixes ignored in
+			// the same Step) or consumed a prefix on its own: registers cannot tell (how R moves is nobody's
+			// promise) - the scenario ends there without verdict.
 			k := m.CPU.PC - si.Before.PC
-			si.Halted = !si.Accepted && k <= 3 && before[k&3] == 0x76 && (m.CPU.IR.Lo-si.Before.IR.Lo)&0x7f == uint8(k)+1
-			for i := uint16(0); i < k && k <= 3; i++ {
-				if before[i] != 0xdd && before[i] != 0xfd {
-					si.Halted = false
+			si.Halted = !si.Accepted && k == 0 && before[0] == 0x76
+			if !si.Accepted && k >= 1 && k <= 3 && before[k] == 0x76 {
+				pfx := true
+				for i := uint16(0); i < k; i++ {
+					pfx = pfx && (before[i] == 0xdd || before[i] == 0xfd)
+				}
+				if pfx {
+					return nil, steps, false, false
 				}
 			}
 		}
